@@ -108,7 +108,7 @@ Qed.
 
 Lemma nstep_inv ra rd w e : NInv w → NInv (nstep ra false rd true w e).
 Proof.
-  intros HG. destruct e as [d|k d|k|k|k|k|k]; simpl.
+  intros HG. destruct e as [d|k d|k|k|k|k|k|d]; simpl.
   - by apply ncreate_inv.
   - (* NSet *)
     destruct (nents w !! k) as [o|] eqn:Hk; [|done]. destruct (nalive o) eqn:Ha; [|done].
@@ -142,6 +142,9 @@ Proof.
   - (* NCopy *)
     destruct (nents w !! k) as [o|] eqn:Hk; [|done]. destruct (nalive o); [|done].
     by apply ncreate_inv.
+  - (* NReserve: an allocation nobody keeps *)
+    destruct (get_id d (nman w)) as [[i m]|] eqn:E; [|done].
+    unfold NInv in *. simpl. by eapply good_leak.
 Qed.
 
 Lemma nrun_inv_from ra rd es : ∀ w, NInv w → NInv (fold_left (nstep ra false rd true) es w).
